@@ -4,5 +4,6 @@ CONSTANTS
   Versions = {1, 2}
   MaxHist = 999999
   MaxPost = 999999
+  PostAll = TRUE
 INVARIANT Done
 CHECK_DEADLOCK FALSE
